@@ -76,11 +76,16 @@ def canon64 (b : UInt64) : UInt64 := if C.isNaN64 b then 0x7FF8000000000000 else
 
 theorem pub_single (v : UInt32) : cbor_encode_single v buf off n = encRes buf off n (Spec.headBytes 7 26 (canon32 v).toNat) := by
   unfold cbor_encode_single canon32
-  split <;> (simp only []; rw [o7, enc32 _ _ _ _ 7 (by omega)])
+  simp only []
+  repeat' split
+  all_goals (rw [o7, enc32 _ _ _ _ 7 (by omega)])
+  all_goals (first | rfl | simp_all)
 theorem pub_double (v : UInt64) : cbor_encode_double v buf off n = encRes buf off n (Spec.headBytes 7 27 (canon64 v).toNat) := by
   unfold cbor_encode_double canon64
-  have e : ((32760 : UInt64) <<< (48 : UInt64)) = 0x7FF8000000000000 := by decide
-  split <;> (simp only [e]; rw [o7, enc64 _ _ _ _ 7 (by omega)])
+  simp only []
+  repeat' split
+  all_goals (rw [o7, enc64 _ _ _ _ 7 (by omega)])
+  all_goals (first | rfl | simp_all)
 
 /-! side conditions -/
 variable (h : off + n.toNat ≤ buf.size)
@@ -110,8 +115,10 @@ theorem pub_null_ok : cbor_encode_null.ok buf off n = true := by simp [cbor_enco
 theorem pub_undef_ok : cbor_encode_undef.ok buf off n = true := by simp [cbor_encode_undef.ok, encByte_ok, h]
 theorem pub_bool_ok (b : Bool) : cbor_encode_bool.ok b buf off n = true := by cases b <;> simp [cbor_encode_bool.ok, encByte_ok, h]
 theorem pub_single_ok (v : UInt32) : cbor_encode_single.ok v buf off n = true := by
-  unfold cbor_encode_single.ok; split <;> simp [enc32_ok, h]
+  unfold cbor_encode_single.ok; simp only []; repeat' split
+  all_goals simp [enc32_ok, h]
 theorem pub_double_ok (v : UInt64) : cbor_encode_double.ok v buf off n = true := by
-  unfold cbor_encode_double.ok; split <;> simp [enc64_ok, h]
+  unfold cbor_encode_double.ok; simp only []; repeat' split
+  all_goals simp [enc64_ok, h]
 
 end Lemmas
